@@ -20,13 +20,16 @@ store — so it is an independent reading of the property:
            lower or equal check block in between do not release the obligation:
            "kept until agreed, replaced only by newer".
 
-Reading of "handed to the staging store" (DESIGN §7 C10, the weaker reading):
-an add takes effect iff no entry for the work id is stored or the stored one
-has a strictly lower check block; the obligation `kept` starts from a result
-that *is stored* (witnessed by a view).  The stronger reading — every add is
-either visible or dominated by a visible result while young enough — is
-`handedStrong`; the code does not satisfy it (Props/C10
-`handedStrong_fails`), the driver reports it as a tag, not as a failure.
+* `handed` every `add r` at `ta` takes effect or is dominated: each later view — until a
+           removal of the work id, an add with a strictly higher check block, or `r`'s TTL —
+           shows `r` or a result of the same work id with a check block at least as high,
+           unless an entry with such a block was handed in earlier, was still *live* (not past
+           its TTL) at `ta`, could still be the stored one (`domTimes`), and has itself outlived
+           the TTL by the time of the view.  This is the first clause of C10 at full strength
+           for the code after `fix: result store: an expired, not yet collected entry no longer
+           blocks a new result`; the pinned tree violates it (Props/C10 `handedStrong_fails_old`).
+           What remains outside: a result rejected by a live higher-or-equal entry is not
+           resurrected when that entry expires first — by design of "replace only by newer".
 -/
 namespace AutoVerif.C10
 
@@ -75,11 +78,53 @@ def viewOk (ttl : Nat) (revPre : List Ev) (t : Nat) (out : List CheckResult) (re
   viewNodup out && viewSound ttl revPre t out &&
   out.all (fun r => keptFwd ttl r (candTimes r revPre) rest)
 
+/-! ### `handed`: every add takes effect or is dominated by a live entry -/
+
+/-- clock readings of the earlier `add` events for `w` that can excuse dropping a result of
+block `b` handed in at `ta`: block at least `b`, not followed (up to `ta`) by a removal of `w`
+or an add for `w` with a strictly higher block (`mx` = highest block met so far walking back),
+and not older than the TTL at `ta`.  `revPre` newest first. -/
+def domTimes (ttl : Nat) (w : String) (b ta : Nat) : List Ev → Nat → List Nat
+  | [], _ => []
+  | e :: rest, mx =>
+    match e with
+    | .remove _ id => if id == w then [] else domTimes ttl w b ta rest mx
+    | .add t' r' =>
+      if r'.workID == w then
+        (if decide (mx ≤ blk r') && decide (b ≤ blk r') && fresh ttl ta t' then [t'] else []) ++
+          domTimes ttl w b ta rest (max mx (blk r'))
+      else domTimes ttl w b ta rest mx
+    | _ => domTimes ttl w b ta rest mx
+
+/-- after `add r` at `ta` with excuses `doms`: walk forward -/
+def handedFwd (ttl : Nat) (r : CheckResult) (ta : Nat) (doms : List Nat) : List Ev → Bool
+  | [] => true
+  | e :: rest =>
+    if clean r.workID (blk r) e then
+      (match e with
+       | .view t out =>
+           out.any (fun r' => r'.workID == r.workID && decide (blk r ≤ blk r')) ||
+           (ta :: doms).any (fun a => !fresh ttl t a)
+       | _ => true) && handedFwd ttl r ta doms rest
+    else true
+
+def addOk (ttl : Nat) (revPre : List Ev) (ta : Nat) (r : CheckResult) (rest : List Ev) : Bool :=
+  handedFwd ttl r ta (domTimes ttl r.workID (blk r) ta revPre 0) rest
+
+/-- the clause without the excuse (tagging only: which histories need it) -/
+def handedStrict (ttl : Nat) : List Ev → Bool
+  | [] => true
+  | e :: rest =>
+    (match e with
+     | .add ta r => handedFwd ttl r ta [] rest
+     | _ => true) && handedStrict ttl rest
+
 def specGo (ttl : Nat) : List Ev → List Ev → Bool
   | _, [] => true
   | revPre, e :: rest =>
     (match e with
      | .view t out => viewOk ttl revPre t out rest
+     | .add ta r => addOk ttl revPre ta r rest
      | _ => true) && specGo ttl (e :: revPre) rest
 
 /-- C10 on a recorded history -/
@@ -99,30 +144,12 @@ def explainGo (ttl : Nat) : List Ev → List Ev → String
       else if !out.all (fun r => keptFwd ttl r (candTimes r revPre) rest) then
         "stored result missing from a later view before removal, expiry or a higher check block"
       else explainGo ttl (e :: revPre) rest
+    | .add ta r =>
+      if !addOk ttl revPre ta r rest then
+        "add dropped although no live entry with an equal or higher check block was stored"
+      else explainGo ttl (e :: revPre) rest
     | _ => explainGo ttl (e :: revPre) rest
 
 def explain (ttl : Nat) (evs : List Ev) : String := explainGo ttl [] evs
-
-/-! ### the stronger reading of "handed to the store" (reported, not required) -/
-
-/-- after `add r` at `ta`: every later view, while no removal / higher add intervenes and
-`r` is younger than the TTL, shows `r` or a result of the same work id with a check block at
-least as high -/
-def handedFwd (ttl : Nat) (r : CheckResult) (ta : Nat) : List Ev → Bool
-  | [] => true
-  | e :: rest =>
-    if clean r.workID (blk r) e then
-      (match e with
-       | .view t out => !fresh ttl t ta ||
-           out.any (fun r' => r'.workID == r.workID && decide (blk r ≤ blk r'))
-       | _ => true) && handedFwd ttl r ta rest
-    else true
-
-def handedStrong (ttl : Nat) : List Ev → Bool
-  | [] => true
-  | e :: rest =>
-    (match e with
-     | .add ta r => handedFwd ttl r ta rest
-     | _ => true) && handedStrong ttl rest
 
 end AutoVerif.C10
